@@ -43,6 +43,12 @@ class C14Entered(Harness):
         for way in ("h1", "ff", "n2", "fn1", "n1n1"):
             for wk in ("none", "real"):
                 yield f"st-N2-{way}-w{wk}-none-keep0", dict(N=2, way=way, weights=wk, post="none", M=2, keep=False)
+        # the values are entered into an EMPTY COPY (copy(include_frequencies=False)) of a histogram that already holds other data
+        for way in ("ff", "n2", "fn1"):
+            for wk in ("none", "real"):
+                yield f"st-N2-{way}-w{wk}-none-emptycopy", dict(N=2, way=way, weights=wk, post="none", M=2, emptycopy=True)
+        # construction from unweighted data, then one more fill: the median is no longer known
+        yield "st-N2-h1+f-wnone-none", dict(N=2, way="h1+f", weights="none", post="none", M=2)
 
     def declare(self, cx, p):
         N = p["N"]
@@ -109,6 +115,8 @@ class C14Entered(Harness):
                     hist.append("n" + way[k + 1])
                     k += 2
             h = H1(e, keep_missed=False) if p.get("keep") is False else H1(e)
+            if p.get("emptycopy"):
+                h = h1(np.asarray([(x["e"][0] + x["e"][1]) / 2.0, (x["e"][0] + x["e"][1]) / 2.0], dtype=float), e).copy(include_frequencies=False)
             enter(h, hist)
         if p["post"] == "copy":
             h = h.copy()
